@@ -545,7 +545,7 @@ void hm_sweep() {
   const int n = 1 + choose(maxn);
   const int stride = 1 + choose(3);  // keys 0, s, 2s, ... (s = 3: sparse in the buckets)
   const int how = choose(5);         // which keys go: 0 none, 1 even positions, 2 first half, 3 all but the last, 4 every third
-  const int via = choose(3);         // 0 erase(key), 1 find + erase(iterator), 2 erasing traversal
+  const int via = choose(4);         // 0 erase(key), 1 find + erase(iterator), 2 erasing traversal, 3 find, erase the predecessor by key, erase(stale iterator)
   const int refill = choose(2);
   constexpr int MAXK = 64;
   C* c = new C();
@@ -575,6 +575,7 @@ void hm_sweep() {
   auto check_all = [&](const char* phase) {
     int count = 0;
     for (int k = 0; k < n * stride + 2; k++) {
+      progress(); // every iteration asks about another key: not a busy-wait loop, even if the (empty) container answers with the same loads
       bool present = ref[k] >= 0;
       if (c->contains(k) != present) fail("ORACLE", "%s: contains(%d) = %d, reference says %d (n %d stride %d)", phase, k, (int)!present, (int)present, n, stride);
       {  // the iterator goes out of scope before the insertion below: with static_strategy<3> an iterator (two slots) and an insertion (three) do not fit
@@ -632,19 +633,36 @@ void hm_sweep() {
   } else {
     for (int pos = n - 1; pos >= 0; pos--) {
       int k = pos * stride;
-      if (!goes(k)) continue;
+      if (!goes(k) || ref[k] < 0) continue;
       if (via == 0) {
         if (!c->erase(k)) fail("ORACLE", "erase of the present key %d failed", k);
         if (c->erase(k)) fail("ORACLE", "second erase of key %d succeeded", k);
       } else {
+        // the iteration order (bucket by bucket, inside a bucket in hash / key order) does not depend on the history:
+        // erase(iterator) must return an iterator to the element that followed the erased one in this order - or end()
+        // exactly if there is none (seeds C09d, C08e: end() although later buckets hold elements)
+        int order[MAXK * 3], no = 0, at = -1;
+        for (auto it = c->begin(); it != c->end(); ++it) {
+          if (keyv(it) == k) at = no;
+          order[no++] = keyv(it);
+        }
+        if (at < 0) fail("ORACLE", "traversal does not yield the present key %d", k);
         auto it = c->find(k);
         if (it == c->end()) fail("ORACLE", "find of the present key %d failed", k);
-        // erase(iterator) returns an iterator to a following element: it must be a present key (or end)
+        if (via == 3 && at > 0) {
+          // the element in front of it goes first, through another handle: the iterator's predecessor is stale now and
+          // erase(iterator) has to re-scan
+          const int p = order[at - 1];
+          if (!c->erase(p)) fail("ORACLE", "erase of the present key %d failed", p);
+          ref[p] = -1;
+        }
         auto nx = c->erase(std::move(it));
+        const int want = at + 1 < no ? order[at + 1] : -1;
         if (nx != c->end()) {
           int k2 = keyv(nx);
-          if (k2 == k || k2 < 0 || k2 >= MAXK * 3 || ref[k2] < 0) fail("ORACLE", "erase(iterator) of key %d returned an iterator to key %d", k, k2);
-        }
+          if (k2 != want) fail("ORACLE", "erase(iterator) of key %d returned an iterator to key %d, the following element is %d", k, k2, want);
+        } else if (want >= 0)
+          fail("ORACLE", "erase(iterator) of key %d returned end() although key %d follows it", k, want);
       }
       ref[k] = -1;
     }
@@ -679,17 +697,17 @@ void hm_sweep() {
 }
 #define REGSW(name, C, IsMap) XMC_TEST_FN("sweep_" name, (&hm_sweep<C, IsMap>), "sequential sweep, " name)
 #define CM_ ,
-REGSW("set_hp", SET<rec::HPs<3>>, false);
+REGSW("set_hp", SET<rec::HPs<6>>, false);
 REGSW("set_ebr", SET<rec::EBR>, false);
 REGSW("set_lfrc", SET<rec::LFRC>, false);
-REGSW("map_b1_hp", MAP<rec::HPs<3> CM_ 1 CM_ false CM_ HashIdentity>, true);
-REGSW("map_b5_memo_hp", MAP<rec::HPs<3> CM_ 5 CM_ true CM_ HashIdentity>, true);
-REGSW("map_b8_hp", MAP<rec::HPs<3> CM_ 8 CM_ false CM_ HashIdentity>, true);
+REGSW("map_b1_hp", MAP<rec::HPs<6> CM_ 1 CM_ false CM_ HashIdentity>, true);
+REGSW("map_b5_memo_hp", MAP<rec::HPs<6> CM_ 5 CM_ true CM_ HashIdentity>, true);
+REGSW("map_b8_hp", MAP<rec::HPs<6> CM_ 8 CM_ false CM_ HashIdentity>, true);
 REGSW("map_b8_memo_scr_ebr", MAP<rec::EBR CM_ 8 CM_ true CM_ HashScramble>, true);
-REGSW("map_b16_const_hp", MAP<rec::HPs<3> CM_ 16 CM_ false CM_ HashConst>, true);
+REGSW("map_b16_const_hp", MAP<rec::HPs<6> CM_ 16 CM_ false CM_ HashConst>, true);
 REGSW("map_b16_lfrc", MAP<rec::LFRC CM_ 16 CM_ false CM_ HashIdentity>, true);
 REGSW("map_b64_stamp", MAP<rec::STAMP CM_ 64 CM_ true CM_ HashIdentity>, true);
-REGSW("map_mk_b8_hp", MAPMK<rec::HPs<3> CM_ 8 CM_ false CM_ HashIdentity>, true);
+REGSW("map_mk_b8_hp", MAPMK<rec::HPs<6> CM_ 8 CM_ false CM_ HashIdentity>, true);
 
 #define REGSET(name, R) XMC_TEST_FN("set_" name, (&setmap_test<SetAdapter<SET<R>>>), "list based set, " name)
 REGSET("hp", rec::HPs<3>);
